@@ -68,13 +68,17 @@ def run(repo, res):
     # ---- R2 / R4 abstract interpretation of get_module -----------------------------------------------
     it = Interp(repo, facts)
     env = it.module_env(PROJECT)
-    env['SUFFIXES'] = ['.py', '.so']
-    it.sys_path = ['<P1>']
+    thorough = getattr(repo, 'tier', 'quick') == 'thorough'
+    suffixes = ['.py', '.so', '.pyc'] if thorough else ['.py', '.so']
+    roots_src = ['<S1>', '<S2>', '<S3>'] if thorough else ['<S1>', '<S2>']
+    roots_sys = ['<P1>', '<P2>'] if thorough else ['<P1>']
+    env['SUFFIXES'] = list(suffixes)
+    it.sys_path = list(roots_sys)
     paths = 0
     results = []
 
     def runner():
-        p = it.instantiate(proj, [['<S1>', '<S2>']], {})
+        p = it.instantiate(proj, [list(roots_src)], {})
         return it.call(it.getattr(p, 'get_module'), ['pkg.mod'], {})
 
     try:
@@ -82,8 +86,8 @@ def run(repo, res):
     except Uninterpretable as e:
         raise AnalysisError('get_module is outside the interpretable subset: %s' % e)
     want_order = []
-    for root in ('<S1>', '<S2>', '<P1>'):
-        want_order += ['%s/pkg/mod.py' % root, '%s/pkg/mod.so' % root, '%s/pkg/mod/__init__.py' % root]
+    for root in roots_src + roots_sys:
+        want_order += ['%s/pkg/mod%s' % (root, sx) for sx in suffixes] + ['%s/pkg/mod/__init__.py' % root]
     for decisions, result, exc, effects, objs in explored:
         paths += 1
         probes = [e[1] for e in effects if e[0] == 'probe']
@@ -105,7 +109,7 @@ def run(repo, res):
             msg = 'a module found under no root %s; got %s' % (
                 'and not loaded must raise ImportError' if not loaded else 'but loaded must be served from sys.modules',
                 exc or result)
-        elif first_true.endswith('.so'):
+        elif not first_true.endswith('.py'):
             ok = ok_order and exc is None and (chosen is None)
             msg = 'a compiled module must be imported, not parsed (got %s, imported %s)' % (result, imported)
         else:
